@@ -8,6 +8,8 @@
 //!   iso y m d [h] | uiso y m d
 //!   rawfmt short|wide|iso y m d h                PdsDateFormatter on a RawDate
 //!   adddays y m d n | until y m d y m d | cmp y m d y m d | dhcmp … | rawcmp …
+//!   dvisit|dhvisit|udvisit <kind> <arg>          the serde Deserialize impls driven by serde's value deserializers
+//!   dser y m d [h]                               the serde Serialize impls (through serde_json)
 //!   fdp <u64>                                    util::fast_digit_parse (hook)
 //!   i64t <hex>                                   scalar::to_i64_t (hook)
 //!   frombin-block <start> <count>                FNV fold of Date/DateHour::from_binary over a range
@@ -225,6 +227,64 @@ fn fdp_reference(v: u64) -> Option<u64> {
     let b = v.to_le_bytes();
     if !b.iter().all(|x| x.is_ascii_digit()) { return None; }
     Some(b.iter().fold(0u64, |a, x| a * 10 + (x - b'0') as u64))
+}
+
+// ---------------------------------------------------------------------------------------
+// serde glue: drive the real Deserialize impls with serde's value deserializers, whose
+// deserialize_any calls exactly one visit_* method
+
+fn visit_with<'de, T: serde::Deserialize<'de>>(kind: &str, arg: &'de str, bytes: &'de [u8]) -> Option<Option<T>> {
+    use serde::de::value::*;
+    type E = serde::de::value::Error;
+    let text = || std::str::from_utf8(bytes).ok();
+    Some(match kind {
+        "i32" => T::deserialize(I32Deserializer::<E>::new(arg.parse().ok()?)).ok(),
+        "i8" => T::deserialize(I8Deserializer::<E>::new(arg.parse().ok()?)).ok(),
+        "i16" => T::deserialize(I16Deserializer::<E>::new(arg.parse().ok()?)).ok(),
+        "i64" => T::deserialize(I64Deserializer::<E>::new(arg.parse().ok()?)).ok(),
+        "u8" => T::deserialize(U8Deserializer::<E>::new(arg.parse().ok()?)).ok(),
+        "u16" => T::deserialize(U16Deserializer::<E>::new(arg.parse().ok()?)).ok(),
+        "u32" => T::deserialize(U32Deserializer::<E>::new(arg.parse().ok()?)).ok(),
+        "u64" => T::deserialize(U64Deserializer::<E>::new(arg.parse().ok()?)).ok(),
+        "f64" => T::deserialize(F64Deserializer::<E>::new(arg.parse().ok()?)).ok(),
+        "bool" => T::deserialize(BoolDeserializer::<E>::new(arg == "1")).ok(),
+        "unit" => T::deserialize(UnitDeserializer::<E>::new()).ok(),
+        "bytes" => T::deserialize(BytesDeserializer::<E>::new(bytes)).ok(),
+        "str" => T::deserialize(StrDeserializer::<E>::new(text()?)).ok(),
+        "string" => T::deserialize(StringDeserializer::<E>::new(text()?.to_string())).ok(),
+        "char" => { let t = text()?; let mut it = t.chars(); let c = it.next()?; if it.next().is_some() { return None; } T::deserialize(CharDeserializer::<E>::new(c)).ok() }
+        _ => return None,
+    })
+}
+
+fn visit_op(op: &str, kind: &str, arg: &str, case: &str, obs: &mut Obs) -> Option<String> {
+    let is_text = matches!(kind, "str" | "string" | "char" | "bytes");
+    let bytes: Vec<u8> = if is_text { unhex(arg)? } else { vec![] };
+    // what the core entry points say for the same input
+    let as_i32: Option<i32> = if kind == "i32" { arg.parse().ok() } else { None };
+    let as_str: Option<&[u8]> = if matches!(kind, "str" | "string" | "char") { Some(&bytes) } else { None };
+    Some(match op {
+        "dvisit" => {
+            let r: Option<Date> = visit_with(kind, arg, &bytes)?;
+            let core = as_i32.and_then(Date::from_binary).or_else(|| as_str.and_then(|s| Date::parse(s).ok()));
+            if r != core { obs.violation("visitor-vs-core", case, &format!("visitor {:?} core {:?}", r, core)); }
+            if let (Some(d), Some(v)) = (r, as_i32) { if d.to_binary() != v - v % 24 { obs.violation("visitor-i32-wrapped", case, ""); } }
+            r.map(|d| show_date(&d)).unwrap_or_else(none)
+        }
+        "dhvisit" => {
+            let r: Option<DateHour> = visit_with(kind, arg, &bytes)?;
+            let core = as_i32.and_then(DateHour::from_binary).or_else(|| as_str.and_then(|s| DateHour::parse(s).ok()));
+            if r != core { obs.violation("visitor-vs-core", case, &format!("visitor {:?} core {:?}", r, core)); }
+            if let (Some(d), Some(v)) = (r, as_i32) { if d.to_binary() != v { obs.violation("visitor-i32-wrapped", case, ""); } }
+            r.map(|d| show_dh(&d)).unwrap_or_else(none)
+        }
+        _ => {
+            let r: Option<UniformDate> = visit_with(kind, arg, &bytes)?;
+            let core = as_str.and_then(|s| UniformDate::parse(s).ok());
+            if r != core { obs.violation("visitor-vs-core", case, &format!("visitor {:?} core {:?}", r, core)); }
+            r.map(|d| show_ud(&d)).unwrap_or_else(none)
+        }
+    })
 }
 
 // ---------------------------------------------------------------------------------------
@@ -698,6 +758,36 @@ pub fn exec(w: &[&str], obs: &mut Obs) -> Option<String> {
                 _ => none(),
             })
         }
+        [op @ ("dvisit" | "dhvisit" | "udvisit"), kind, arg] => {
+            let r = visit_op(op, kind, arg, &case(), obs)?;
+            obs.count(&format!("{}:{}:{}", op, kind, if r == "none" { "none" } else { "ok" }));
+            Some(r)
+        }
+        ["dser", y, m, d] => {
+            let od = date_of(y, m, d)?;
+            Some(match od {
+                None => none(),
+                Some(x) => {
+                    let j = serde_json::to_string(&x).ok()?;
+                    let iso = x.iso_8601().to_string();
+                    if j != format!("\"{}\"", iso) { obs.violation("serialize-iso", &case(), &j); }
+                    // what is serialized deserializes... as text only through the game format; iso is output only
+                    format!("ok {}", hex(j.trim_matches('"').as_bytes()))
+                }
+            })
+        }
+        ["dser", y, m, d, h] => {
+            let od = dh_of(y, m, d, h)?;
+            Some(match od {
+                None => none(),
+                Some(x) => {
+                    let j = serde_json::to_string(&x).ok()?;
+                    let iso = x.iso_8601().to_string();
+                    if j != format!("\"{}\"", iso) { obs.violation("serialize-iso", &case(), &j); }
+                    format!("ok {}", hex(j.trim_matches('"').as_bytes()))
+                }
+            })
+        }
         ["fdp", v] => {
             let v: u64 = v.parse().ok()?;
             let r = jomini::verif_hooks::fast_digit_parse(v);
@@ -1031,6 +1121,69 @@ pub fn gen(g: &mut Gen) {
         for n in (-800..=800).step_by(step) { g.emit(format!("adddays {} {} {} {}", y, m, d, n)); }
     }
     g.count("arithmetic");
+
+    // 6b. exhaustive small enumerations: every hour 0..=24 (and 25) in every format and type,
+    // every month x days 27..=32 for the three calendars -----------------------------------
+    for (y, m, d) in [(1936, 1, 1), (1, 12, 31), (-5000, 2, 28), (32767, 6, 30), (-32768, 7, 4)] {
+        for h in 0..=25u32 {
+            g.emit(format!("fmt {} {} {} {}", y, m, d, h));
+            g.emit(format!("iso {} {} {} {}", y, m, d, h));
+            g.emit(format!("tobin {} {} {} {}", y, m, d, h));
+            g.emit(format!("dser {} {} {} {}", y, m, d, h));
+            for f in ["short", "wide", "iso"] { g.emit(format!("rawfmt {} {} {} {} {}", f, y, m, d, h)); }
+            for t in [format!("{}.{}.{}.{}", y, m, d, h), format!("{}.{:02}.{:02}.{:02}", y, m, d, h)] {
+                for op in ops4 { g.emit(format!("{} {}", op, hex(t.as_bytes()))); }
+                g.emit(format!("dhvisit str {}", hex(t.as_bytes())));
+            }
+            g.emit(format!("dhcmp {} {} {} {} {} {} {} 16", y, m, d, h, y, m, d));
+            g.emit(format!("rawcmp {} {} {} {} {} {} {} 16", y, m, d, h, y, m, d));
+        }
+    }
+    for y in [2200, -3, 0] {
+        for m in 0..=13u32 {
+            for d in 27..=32u32 {
+                g.emit(format!("ufmt {} {} {}", y, m, d));
+                g.emit(format!("uiso {} {} {}", y, m, d));
+                g.emit(format!("fmt {} {} {}", y, m, d));
+                g.emit(format!("dser {} {} {}", y, m, d));
+                g.emit(format!("rawfmt wide {} {} {} 0", y, m, d));
+                for t in [format!("{}.{}.{}", y, m, d), format!("{}.{:02}.{:02}", y, m, d)] {
+                    for op in ops4 { g.emit(format!("{} {}", op, hex(t.as_bytes()))); }
+                    g.emit(format!("udvisit str {}", hex(t.as_bytes())));
+                    g.emit(format!("dvisit string {}", hex(t.as_bytes())));
+                }
+            }
+        }
+    }
+    g.count("hours-and-month-ends-exhaustive");
+
+    // 6c. serde visitors -------------------------------------------------------------------
+    let visit_texts = ["1444.11.11", "1444.1.1", "1936.1.1.12", "1936.01.01.05", "2200.02.30", "2200.02.31", "-17.1.1", "43808760", "60759371", "-", "+", "-.1.1",
+        "1444.13.1", "1444.2.29", "1.1.1.25", "1.1.1.0", "1444.11.11x", "", "0", "56379360", "-43800000", "2147483647", "2147483648", "99999999999"];
+    for t in visit_texts {
+        for op in ["dvisit", "dhvisit", "udvisit"] {
+            for kind in ["str", "string", "bytes"] { g.emit(format!("{} {} {}", op, kind, hex(t.as_bytes()))); }
+        }
+    }
+    for c in ["-", "+", "0", "1", ".", "x"] {
+        for op in ["dvisit", "dhvisit", "udvisit"] { g.emit(format!("{} char {}", op, hex(c.as_bytes()))); }
+    }
+    let mut vis_bins: Vec<i64> = vec![i32::MIN as i64, i32::MIN as i64 + 1, -243247681, -243247680, -243247656, -8760, -24, -1, 0, 1, 23, 24, 43808760, 56379360, 60759371,
+        330847656, 330847679, 330847680, 330847681, i32::MAX as i64 - 1, i32::MAX as i64];
+    let nv = g.budget(300, 5000);
+    for _ in 0..nv { vis_bins.push(if g.rng.chance(1, 2) { (g.rng.next() as u32) as i32 as i64 } else { g.rng.range(0, 600_000_000) as i64 - 260_000_000 }); }
+    for v in vis_bins {
+        for op in ["dvisit", "dhvisit", "udvisit"] { g.emit(format!("{} i32 {}", op, v)); }
+        g.emit(format!("frombin {}", v));
+        g.emit(format!("frombinh {}", v));
+        g.emit(format!("dhfrombinh {}", v));
+    }
+    // the same numbers through the integer visits the visitors do NOT override: refused
+    for (kind, v) in [("i64", "56379360"), ("u64", "56379360"), ("u32", "56379360"), ("i64", "60759371"), ("u64", "60759371"), ("i16", "8760"), ("i8", "24"), ("u8", "24"), ("u16", "8760"),
+        ("i64", "4351346656"), ("u64", "4351346656"), ("u32", "4294967295"), ("i64", "-4238587936"), ("f64", "56379360"), ("bool", "1"), ("unit", "0")] {
+        for op in ["dvisit", "dhvisit", "udvisit"] { g.emit(format!("{} {} {}", op, kind, v)); }
+    }
+    g.count("serde-visitors");
 
     // 7. fast_digit_parse -----------------------------------------------------------------
     let nf = g.budget(1500, 10_000);
